@@ -64,7 +64,8 @@ class Session:
     """One world with the client waiting in the Noise hello state and the full honest server stream prepared."""
 
     def __init__(self, name_variant: str = "equal", expected: str | None = None, app: tuple[str, ...] = ("ST", "PR"),
-                 device_psk: bytes | None = None, login: bool = True, early: tuple[str, ...] = (), listener: str = "") -> None:
+                 device_psk: bytes | None = None, login: bool = True, early: tuple[str, ...] = (), listener: str = "",
+                 hello_name: str | None = None) -> None:
         from aioesphomeapi.core import MESSAGE_TYPE_TO_PROTO
         from aioesphomeapi.api_pb2 import SensorStateResponse
 
@@ -106,7 +107,9 @@ class Session:
         # it); the hello/connect responses are causally after the client's hello request, i.e. after readiness: a chunk
         # never spans self.barrier
         self.early = app_messages(early)
-        self.msgs = self.early + [w.hello_resp(name=EXPECTED if expected else "")] + ([w.connect_resp()] if login else []) + app_messages(app)
+        # hello_name: the name in the (authenticated) HelloResponse, when it is to differ from what the server hello announced
+        self.msgs = (self.early + [w.hello_resp(name=hello_name if hello_name is not None else (EXPECTED if expected else ""))]
+                     + ([w.connect_resp()] if login else []) + app_messages(app))
         self.plain: list[tuple[str, bytes]] = []
         if nd.r.tx is None:  # the responder could not authenticate the client (different key): no session follows
             self.msgs = []
@@ -238,6 +241,19 @@ def reference_receive(stream: bytes, rx_key: bytes | None, expected: str | None,
                 return out
             typ = struct.unpack(">H", pt[:2])[0]
             out["delivered"].append((typ, pt[4:], end))
+            if typ == msg_id("HelloResponse") and expected is not None and not out.get("hello_checked"):
+                # the authenticated name: the device's answer to the hello request carries its name again
+                out["hello_checked"] = True
+                hr = env.pb().HelloResponse()
+                try:
+                    hr.ParseFromString(pt[4:])
+                except Exception:  # noqa: BLE001
+                    out["failure"], out["fail_at"] = "unconstrained", end
+                    return out
+                if hr.name and hr.name != expected:
+                    out["received_name"] = hr.name
+                    out["failure"], out["fail_at"] = "bad_name", end
+                    return out
         idx += 1
         pos = end
     out["consumed"] = pos
